@@ -944,7 +944,8 @@ def interleave(classes, chunk=40):
 def generated(ctx, sizes, three_limit):
     """the case classes of one portion of the run: (list of classes, each a list of cases)"""
     r3, r4, r2, nphase, npath, nsig, ncmd = sizes
-    three = explore_cases(ctx, three_proc_configs(), "cover3", limit=three_limit)
+    # the enlarged portion takes the three-process state graphs with their signal transitions
+    three = explore_cases(ctx, three_proc_configs(), "cover3", limit=three_limit, signals=(three_limit is None))
     return [three,
             [random_case(ctx.rng, 3) for _ in range(r3)], [random_case(ctx.rng, 4) for _ in range(r4)],
             [random_case(ctx.rng, 2) for _ in range(r2)], [phase_case(ctx.rng) for _ in range(nphase)],
